@@ -12,6 +12,8 @@ package main
 // When the shape is not uniquely decodable a concrete collision witness is printed.
 
 import (
+	"os"
+	"sort"
 	"fmt"
 	"go/constant"
 	"go/token"
@@ -40,6 +42,8 @@ func (s *Shape) String() string {
 		return strconv.Quote(s.S)
 	case "raw":
 		return "RAW"
+	case "byte":
+		return "BYTE"
 	case "esc":
 		return "ESC(" + strconv.Quote(s.S) + ")"
 	case "num":
@@ -181,6 +185,11 @@ func isStringType(t types.Type) bool {
 }
 
 func (sh *shaper) of1(v ssa.Value) *Shape {
+	if isByteSlice(v.Type()) {
+		if s := sh.bytes1(v); s != nil {
+			return s
+		}
+	}
 	switch x := v.(type) {
 	case *ssa.Const:
 		if x.Value != nil && x.Value.Kind() == constant.String {
@@ -267,9 +276,23 @@ func (sh *shaper) of1(v ssa.Value) *Shape {
 		return sh.of(x.X)
 	case *ssa.Slice:
 		if isStringType(x.Type()) {
+			if x.Low == nil && x.High != nil {
+				if src, chars := cleanPrefixIdx(x.High); src == x.X && chars != "" {
+					// s[:i] where the scan that produced i met none of chars before i
+					sh.of(x.X)
+					return &Shape{K: "esc", S: chars, Why: "free-prefix", Of: v}
+				}
+			}
 			return &Shape{K: "raw", Of: v}
 		}
-	case *ssa.Index, *ssa.Lookup, *ssa.Field:
+	case *ssa.Index:
+		if isStringType(x.X.Type()) {
+			return &Shape{K: "byte", Of: v} // one byte of a string: s[i]
+		}
+		if isStringType(v.Type()) {
+			return &Shape{K: "raw", Of: v}
+		}
+	case *ssa.Lookup, *ssa.Field:
 		if isStringType(v.Type()) {
 			return &Shape{K: "raw", Of: v}
 		}
@@ -484,6 +507,32 @@ func freeOfChars(b *ssa.BasicBlock, p *ssa.Parameter) string {
 				continue
 			}
 			break
+		}
+		if bo, ok := v.(*ssa.BinOp); ok {
+			// the scan index reached the end: i == len(p) / i >= len(p) / !(i < len(p)) with s[:i] free of chars;
+			// strings.IndexAny(p, chars) < 0 / == -1
+			x, y, op := bo.X, bo.Y, bo.Op
+			if !sense {
+				switch op {
+				case token.LSS:
+					op, sense = token.GEQ, true
+				case token.NEQ:
+					op, sense = token.EQL, true
+				}
+			}
+			if sense && (op == token.EQL || op == token.GEQ) && lenArg(y) == ssa.Value(p) {
+				if src, chars := cleanPrefixIdx(x); src == ssa.Value(p) && chars != "" {
+					if _, isCall := x.(*ssa.Call); !isCall {
+						return chars
+					}
+				}
+			}
+			if k, isK := y.(*ssa.Const); isK && sense && k.Value != nil && k.Value.Kind() == constant.Int {
+				if ((op == token.LSS && k.Int64() == 0) || (op == token.EQL && k.Int64() == -1)) && isIndexAnyOf(x, p) != "" {
+					return isIndexAnyOf(x, p)
+				}
+			}
+			continue
 		}
 		c, ok := v.(*ssa.Call)
 		if !ok || sense || len(c.Call.Args) != 2 || c.Call.Args[0] != ssa.Value(p) {
@@ -749,19 +798,546 @@ func (sh *shaper) sliceElems(v ssa.Value) *Shape {
 	return alt(elems...)
 }
 
-// ofBytes: shape of a []byte value (strconv.AppendInt(buf, int64(len(x)), 10) is LEN).
-func (sh *shaper) ofBytes(v ssa.Value) *Shape {
-	if c, ok := v.(*ssa.Call); ok {
-		n := calleeFull(&c.Call)
-		if n == "strconv.AppendInt" || n == "strconv.AppendUint" {
-			if l := lenArg(c.Call.Args[1]); l != nil {
-				return &Shape{K: "lenof", Of: l}
+type iterAlt struct {
+	sh    *Shape
+	conds []Guard
+}
+
+// byteConst: the value of a constant byte expression: 'x', or "…"[k] over constants.
+func byteConst(v ssa.Value) (byte, bool) {
+	for {
+		switch x := v.(type) {
+		case *ssa.Convert:
+			v = x.X
+			continue
+		case *ssa.ChangeType:
+			v = x.X
+			continue
+		case *ssa.Const:
+			if x.Value != nil && x.Value.Kind() == constant.Int {
+				if i, ok := constant.Int64Val(x.Value); ok && i >= 0 && i < 256 {
+					return byte(i), true
+				}
 			}
-			return &Shape{K: "num", Of: c}
+		case *ssa.Index:
+			sk, ok1 := x.X.(*ssa.Const)
+			ik, ok2 := x.Index.(*ssa.Const)
+			if ok1 && ok2 && sk.Value != nil && sk.Value.Kind() == constant.String && ik.Value != nil && ik.Value.Kind() == constant.Int {
+				str := constant.StringVal(sk.Value)
+				if i := ik.Int64(); i >= 0 && int(i) < len(str) {
+					return str[i], true
+				}
+			}
+		}
+		return 0, false
+	}
+}
+
+func isIndexAnyOf(v ssa.Value, s ssa.Value) string {
+	c, ok := v.(*ssa.Call)
+	if !ok || calleeFull(&c.Call) != "strings.IndexAny" || c.Call.Args[0] != s {
+		return ""
+	}
+	if k, ok := c.Call.Args[1].(*ssa.Const); ok && k.Value != nil && k.Value.Kind() == constant.String {
+		return constant.StringVal(k.Value)
+	}
+	return ""
+}
+
+// byteTest: cond (with the given truth value) says s[j] != c; returns s, j, c.
+func byteExcluded(g Guard) (s, j ssa.Value, c byte, ok bool) {
+	v, sense := g.Cond, g.Sense
+	for {
+		u, isU := v.(*ssa.UnOp)
+		if !isU || u.Op != token.NOT {
+			break
+		}
+		v, sense = u.X, !sense
+	}
+	bo, isB := v.(*ssa.BinOp)
+	if !isB || !((bo.Op == token.NEQ && sense) || (bo.Op == token.EQL && !sense)) {
+		return nil, nil, 0, false
+	}
+	x, y := bo.X, bo.Y
+	if _, isIdx := x.(*ssa.Index); !isIdx {
+		x, y = y, x
+	}
+	ix, isIdx := x.(*ssa.Index)
+	if !isIdx || !isStringType(ix.X.Type()) {
+		return nil, nil, 0, false
+	}
+	k, isK := byteConst(y)
+	if !isK {
+		return nil, nil, 0, false
+	}
+	return ix.X, ix.Index, k, true
+}
+
+// cleanPrefixIdx: v is an index into the string s such that s[:v] contains none of chars, for every value v takes:
+// the counter of a scan `for i < len(s) && s[i] != a && s[i] != b { i++ }` (phi [0, i+1] whose increment is reached
+// only under s[i] != a, s[i] != b - the invariant holds at 0 and is kept by every increment), or
+// strings.IndexAny(s, chars) (where it is non-negative, which slicing with it requires).
+func cleanPrefixIdx(v ssa.Value) (ssa.Value, string) {
+	if c, ok := v.(*ssa.Call); ok && calleeFull(&c.Call) == "strings.IndexAny" {
+		if chars := isIndexAnyOf(v, c.Call.Args[0]); chars != "" {
+			return c.Call.Args[0], chars
+		}
+		return nil, ""
+	}
+	phi, ok := v.(*ssa.Phi)
+	if !ok || len(phi.Edges) != 2 {
+		return nil, ""
+	}
+	var latch *ssa.BasicBlock
+	for i, e := range phi.Edges {
+		pred := phi.Block().Preds[i]
+		if k, isK := e.(*ssa.Const); isK {
+			if k.Value == nil || k.Value.Kind() != constant.Int || k.Int64() != 0 || reachesAvoiding2(phi.Block(), pred) {
+				return nil, ""
+			}
+			continue
+		}
+		bo, isB := e.(*ssa.BinOp)
+		if !isB || bo.Op != token.ADD || bo.X != ssa.Value(phi) {
+			return nil, ""
+		}
+		if k, isK := bo.Y.(*ssa.Const); !isK || k.Value == nil || k.Value.Kind() != constant.Int || k.Int64() != 1 {
+			return nil, ""
+		}
+		latch = bo.Block()
+		if latch != pred && !latch.Dominates(pred) {
+			return nil, ""
 		}
 	}
-	return unknown("bytes of unknown origin")
+	if latch == nil {
+		return nil, ""
+	}
+	var src ssa.Value
+	chars := ""
+	for _, g := range guardsOf(latch) {
+		s, j, c, ok := byteExcluded(g)
+		if !ok || j != ssa.Value(phi) {
+			continue
+		}
+		if src != nil && src != s {
+			return nil, ""
+		}
+		src = s
+		if !strings.ContainsRune(chars, rune(c)) {
+			chars += string(rune(c))
+		}
+	}
+	return src, chars
 }
+
+// byteEscapeLoop recognises the single-pass escaper written by hand:
+//
+//	for ; j < len(s); j++ { if c := s[j]; c == E || c == sep { b.WriteByte(E) }; b.WriteByte(s[j]) }
+//
+// Every path through one iteration writes s[j], alone or after the one-byte constant E; the paths that write it
+// alone are taken only for bytes outside a set that contains E; j visits start..len(s)-1 and the loop is left
+// only at j == len(s); start is 0, or the index i of a scan whose prefix s[:i] is free of the set and has just been
+// written (the last of pre). Then the text is s with each byte of the set - and possibly others - preceded by E and E
+// itself always escaped, which the usual reader (E: take the next byte literally) inverts: ESC(E + set).
+func (sh *shaper) byteEscapeLoop(header *ssa.BasicBlock, loopBlocks map[*ssa.BasicBlock]bool, alts []iterAlt, pre []*Shape) (*Shape, int) {
+	if len(alts) == 0 {
+		return nil, 0
+	}
+	var src, j ssa.Value
+	esc := ""
+	var set map[byte]bool
+	for _, a := range alts {
+		var by *Shape
+		switch {
+		case a.sh.K == "byte":
+			by = a.sh
+		case a.sh.K == "concat" && len(a.sh.Sub) == 2 && a.sh.Sub[0].K == "const" && len(a.sh.Sub[0].S) == 1 && a.sh.Sub[1].K == "byte":
+			by = a.sh.Sub[1]
+			if esc != "" && esc != a.sh.Sub[0].S {
+				return nil, 0
+			}
+			esc = a.sh.Sub[0].S
+		default:
+			return nil, 0
+		}
+		ix := by.Of.(*ssa.Index)
+		if (src != nil && src != ix.X) || (j != nil && j != ix.Index) {
+			return nil, 0
+		}
+		src, j = ix.X, ix.Index
+		if a.sh.K == "byte" {
+			ex := map[byte]bool{}
+			for _, g := range a.conds {
+				if s, jj, c, ok := byteExcluded(g); ok && s == src && jj == j {
+					ex[c] = true
+				}
+			}
+			if set == nil {
+				set = ex
+			} else {
+				for c := range set {
+					if !ex[c] {
+						delete(set, c)
+					}
+				}
+			}
+		}
+	}
+	if esc == "" || set == nil || !set[esc[0]] {
+		return nil, 0
+	}
+	// j counts from start in steps of one
+	phi, ok := j.(*ssa.Phi)
+	if !ok || phi.Block() != header {
+		return nil, 0
+	}
+	var start ssa.Value
+	for i, e := range phi.Edges {
+		if loopBlocks[header.Preds[i]] {
+			bo, isB := e.(*ssa.BinOp)
+			if !isB || bo.Op != token.ADD || bo.X != ssa.Value(phi) {
+				return nil, 0
+			}
+			if k, isK := bo.Y.(*ssa.Const); !isK || k.Value == nil || k.Value.Kind() != constant.Int || k.Int64() != 1 {
+				return nil, 0
+			}
+		} else if start != nil {
+			return nil, 0
+		} else {
+			start = e
+		}
+	}
+	if start == nil {
+		return nil, 0
+	}
+	// the loop is left only when j has reached len(s)
+	for b := range loopBlocks {
+		for si, sc := range b.Succs {
+			if loopBlocks[sc] {
+				continue
+			}
+			iff, isIf := b.Instrs[len(b.Instrs)-1].(*ssa.If)
+			if !isIf {
+				return nil, 0
+			}
+			bo, isB := iff.Cond.(*ssa.BinOp)
+			if !isB || bo.X != j || lenArg(bo.Y) != src {
+				return nil, 0
+			}
+			if !((bo.Op == token.LSS && si == 1) || (bo.Op == token.GEQ && si == 0) || (bo.Op == token.NEQ && si == 1) || (bo.Op == token.EQL && si == 0)) {
+				return nil, 0
+			}
+		}
+	}
+	chars := esc
+	var rest []int
+	for c := range set {
+		if c != esc[0] {
+			rest = append(rest, int(c))
+		}
+	}
+	sort.Ints(rest)
+	for _, c := range rest {
+		chars += string(rune(c))
+	}
+	used := 0
+	if !isZeroConst(start) {
+		s0, free := cleanPrefixIdx(start)
+		if s0 != src || len(pre) == 0 {
+			return nil, 0
+		}
+		last := pre[len(pre)-1]
+		sl, isSl := last.Of.(*ssa.Slice)
+		if last.K != "esc" || last.Why != "free-prefix" || !isSl || sl.X != src || sl.High != start {
+			return nil, 0
+		}
+		for c := range set {
+			if !strings.ContainsRune(free, rune(c)) {
+				return nil, 0
+			}
+		}
+		used = 1
+	}
+	sh.of(src)
+	return &Shape{K: "esc", S: chars, Of: j}, used
+}
+
+// notFirstIterationBranch: cond is `i > 0`, `i != 0`, `i >= 1`, `0 < i` (or the negations `i == 0`, `i < 1`) over the
+// zero-based iteration counter i of the loop made of loopBlocks; the result is the index of the successor taken in
+// every iteration but the first, or -1 when cond is not such a test.
+func notFirstIterationBranch(cond ssa.Value, loopBlocks map[*ssa.BasicBlock]bool) int {
+	neg := false
+	for {
+		u, ok := cond.(*ssa.UnOp)
+		if !ok || u.Op != token.NOT {
+			break
+		}
+		neg = !neg
+		cond = u.X
+	}
+	bo, ok := cond.(*ssa.BinOp)
+	if !ok {
+		return -1
+	}
+	x, y, op := bo.X, bo.Y, bo.Op
+	if _, isC := x.(*ssa.Const); isC {
+		x, y = y, x
+		switch op {
+		case token.LSS:
+			op = token.GTR
+		case token.LEQ:
+			op = token.GEQ
+		case token.GTR:
+			op = token.LSS
+		case token.GEQ:
+			op = token.LEQ
+		}
+	}
+	k, ok := y.(*ssa.Const)
+	if !ok || k.Value == nil || k.Value.Kind() != constant.Int || !isIterationCounter(x, loopBlocks) {
+		return -1
+	}
+	n := k.Int64()
+	later := -1
+	switch {
+	case (op == token.GTR || op == token.NEQ) && n == 0, op == token.GEQ && n == 1:
+		later = 0
+	case op == token.EQL && n == 0, op == token.LSS && n == 1, op == token.LEQ && n == 0:
+		later = 1
+	default:
+		return -1
+	}
+	if neg {
+		later = 1 - later
+	}
+	return later
+}
+
+// isIterationCounter: v counts the iterations of the loop from zero: `for i := 0; …; i++` (phi [0, i+1]) or the
+// index of a range over a slice (go/ssa: phi [-1, t] with t = phi + 1, and t is the index seen by the body).
+func isIterationCounter(v ssa.Value, loopBlocks map[*ssa.BasicBlock]bool) bool {
+	plusOne := func(b ssa.Value, of ssa.Value) bool {
+		bo, ok := b.(*ssa.BinOp)
+		if !ok || bo.Op != token.ADD {
+			return false
+		}
+		k, ok := bo.Y.(*ssa.Const)
+		return ok && bo.X == of && k.Value != nil && k.Value.Kind() == constant.Int && k.Int64() == 1
+	}
+	counter := func(phi *ssa.Phi, start int64, next func(e ssa.Value) bool) bool {
+		if !loopBlocks[phi.Block()] {
+			return false
+		}
+		outside, inside := 0, 0
+		for i, e := range phi.Edges {
+			if loopBlocks[phi.Block().Preds[i]] {
+				if !next(e) {
+					return false
+				}
+				inside++
+			} else {
+				k, ok := e.(*ssa.Const)
+				if !ok || k.Value == nil || k.Value.Kind() != constant.Int || k.Int64() != start {
+					return false
+				}
+				outside++
+			}
+		}
+		return outside == 1 && inside >= 1
+	}
+	switch x := v.(type) {
+	case *ssa.Phi:
+		return counter(x, 0, func(e ssa.Value) bool { return plusOne(e, x) })
+	case *ssa.BinOp:
+		if phi, ok := x.X.(*ssa.Phi); ok && plusOne(x, phi) {
+			return counter(phi, -1, func(e ssa.Value) bool { return e == ssa.Value(x) })
+		}
+	}
+	return false
+}
+
+// manualJoin: every path through one iteration crosses the first-iteration test exactly once, the later iterations
+// write a constant separator followed by exactly what a first iteration can write: that is strings.Join.
+func manualJoin(first, later []*Shape, unflagged int) *Shape {
+	if unflagged > 0 || len(first) == 0 || len(later) == 0 {
+		return nil
+	}
+	// the constant every later iteration starts with; a literal component merges with it ("|" + `\N`), so the
+	// separator is a common prefix of those constants: the longest one that makes the two sets agree
+	common := ""
+	for i, l := range later {
+		head := l
+		if l.K == "concat" {
+			head = l.Sub[0]
+		}
+		if head.K != "const" || head.S == "" {
+			return nil
+		}
+		if i == 0 {
+			common = head.S
+		}
+		n := 0
+		for n < len(common) && n < len(head.S) && common[n] == head.S[n] {
+			n++
+		}
+		common = common[:n]
+	}
+	set := func(xs []*Shape) map[string]bool {
+		m := map[string]bool{}
+		for _, x := range xs {
+			m[shapeKey(x)] = true
+		}
+		return m
+	}
+	fs := set(first)
+	for n := len(common); n >= 1; n-- {
+		sep := common[:n]
+		var stripped []*Shape
+		for _, l := range later {
+			head, rest := l, []*Shape(nil)
+			if l.K == "concat" {
+				head, rest = l.Sub[0], l.Sub[1:]
+			}
+			stripped = append(stripped, concat(append([]*Shape{konst(head.S[n:])}, rest...)...))
+		}
+		ls := set(stripped)
+		same := len(fs) == len(ls)
+		for k := range fs {
+			if !ls[k] {
+				same = false
+			}
+		}
+		if same {
+			return &Shape{K: "join", S: sep, Sub: []*Shape{alt(first...)}}
+		}
+	}
+	return nil
+}
+
+// shapeKey distinguishes raw pieces by the value they come from (String() prints them all as RAW).
+func shapeKey(s *Shape) string {
+	k := s.String()
+	if s.K == "raw" || s.K == "lenof" {
+		k += fmt.Sprintf("%p", s.Of)
+	}
+	for _, x := range s.Sub {
+		k += "(" + shapeKey(x) + ")"
+	}
+	return k
+}
+
+// ofBytes: shape of a []byte value that is being built as key text. The append-style encoders
+// (dst = append(dst, "int|"...); dst = strconv.AppendInt(dst, x, 10); return string(dst)) are read like string
+// concatenation: the shape of the destination followed by what is appended. A value memoised through sh.of, so a
+// loop-carried buffer is a phi whose back edge is SELF + piece, exactly as for strings.
+func (sh *shaper) ofBytes(v ssa.Value) *Shape {
+	if !isByteSlice(v.Type()) {
+		return unknown("bytes of unknown origin")
+	}
+	return sh.of(v)
+}
+
+func isByteSlice(t types.Type) bool {
+	sl, ok := t.Underlying().(*types.Slice)
+	if !ok {
+		return false
+	}
+	b, ok := sl.Elem().Underlying().(*types.Basic)
+	return ok && (b.Kind() == types.Byte || b.Kind() == types.Uint8)
+}
+
+// bytesRewrittenInPlace: fn overwrites bytes of a []byte it has: copy(dst, …) into a byte slice, or b[i] = c.
+// (The one-element arrays go/ssa makes for variadic arguments are not buffers.)
+func bytesRewrittenInPlace(fn *ssa.Function) string {
+	for _, b := range fn.Blocks {
+		for _, in := range b.Instrs {
+			switch x := in.(type) {
+			case *ssa.Call:
+				if cc, ok := isBuiltinCall(x, "copy"); ok && len(cc.Args) == 2 && isByteSlice(cc.Args[0].Type()) {
+					return "a byte buffer is rewritten in place with copy in " + fname(fn) + ": the text is not the sequence of appends"
+				}
+			case *ssa.Store:
+				ia, ok := x.Addr.(*ssa.IndexAddr)
+				if !ok {
+					continue
+				}
+				if isByteSlice(ia.X.Type()) {
+					return "a byte of a buffer is overwritten by index in " + fname(fn) + ": the text is not the sequence of appends"
+				}
+			}
+		}
+	}
+	return ""
+}
+
+// bytes1 is of1 for []byte-typed values; nil means "not a form read here".
+func (sh *shaper) bytes1(v ssa.Value) *Shape {
+	if in, ok := v.(ssa.Instruction); ok && in.Parent() != nil {
+		if why := bytesRewrittenInPlace(in.Parent()); why != "" {
+			// append-only reading is wrong when bytes already written are moved or overwritten
+			return unknown("%s", why)
+		}
+	}
+	switch x := v.(type) {
+	case *ssa.Const:
+		if x.Value == nil {
+			return konst("") // nil slice
+		}
+	case *ssa.Slice:
+		// buf[:0] - an empty destination over scratch storage, whatever that storage holds
+		if x.High != nil && isZeroConst(x.High) && (x.Low == nil || isZeroConst(x.Low)) {
+			return konst("")
+		}
+		if x.Low == nil && x.High == nil && isByteSlice(x.X.Type()) {
+			return sh.of(x.X)
+		}
+	case *ssa.MakeSlice:
+		if isZeroConst(x.Len) {
+			return konst("")
+		}
+	case *ssa.Convert:
+		if isStringType(x.X.Type()) {
+			return sh.of(x.X)
+		}
+	case *ssa.ChangeType:
+		return sh.of(x.X)
+	case *ssa.Call:
+		if cc, ok := isBuiltinCall(x, "append"); ok && len(cc.Args) >= 1 {
+			base := sh.of(cc.Args[0])
+			if len(cc.Args) == 1 {
+				return base
+			}
+			if isStringType(cc.Args[1].Type()) {
+				return concat(base, sh.of(cc.Args[1]))
+			}
+			if els := appendedElems(cc); els != nil {
+				parts := []*Shape{base}
+				for _, e := range els {
+					if _, isC := e.(*ssa.Const); isC {
+						parts = append(parts, sh.of(e))
+					} else {
+						parts = append(parts, &Shape{K: "raw", Of: e}) // one byte of unknown value
+					}
+				}
+				return concat(parts...)
+			}
+			return concat(base, sh.of(cc.Args[1]))
+		}
+		switch calleeFull(&x.Call) {
+		case "strconv.AppendInt", "strconv.AppendUint":
+			if l := lenArg(x.Call.Args[1]); l != nil {
+				return concat(sh.of(x.Call.Args[0]), &Shape{K: "lenof", Of: l})
+			}
+			return concat(sh.of(x.Call.Args[0]), &Shape{K: "num", Of: x})
+		case "strconv.AppendFloat", "strconv.AppendBool":
+			return concat(sh.of(x.Call.Args[0]), &Shape{K: "num", Of: x})
+		case "strconv.AppendQuote", "strconv.AppendQuoteToASCII":
+			return concat(sh.of(x.Call.Args[0]), &Shape{K: "quoted", Of: x})
+		}
+	}
+	return nil
+}
+
 
 // builder: the writes to a strings.Builder local, in block order; writes inside a loop form a repetition.
 func (sh *shaper) builder(recv ssa.Value, at *ssa.Call) *Shape {
@@ -841,6 +1417,13 @@ func (sh *shaper) builder(recv ssa.Value, at *ssa.Call) *Shape {
 		}
 		// what one iteration writes: the writes of the blocks on each path from the header back to it
 		var alts []*Shape
+		// the hand-written join: `if i > 0 { sb.WriteString(sep) }` with i the iteration counter. Each path
+		// through one iteration is classified by the branch it takes at that test: first (i == 0) or later.
+		var firstAlts, laterAlts []*Shape
+		var decided []iterAlt // every alternative with the branch decisions taken on its path
+		var decisions []Guard
+		unflagged := 0
+		flag := 0 // 0: test not crossed on this path, 1: first iteration, 2: later iteration, 3: crossed twice
 		npaths := 0
 		bad := ""
 		onPath := map[*ssa.BasicBlock]bool{}
@@ -853,7 +1436,27 @@ func (sh *shaper) builder(recv ssa.Value, at *ssa.Call) *Shape {
 			onPath[b] = true
 			n := len(cur)
 			cur = append(cur, byBlock[b]...)
-			for _, sc := range b.Succs {
+			later := -1 // successor index taken when this is not the first iteration
+			if iff, ok := b.Instrs[len(b.Instrs)-1].(*ssa.If); ok {
+				later = notFirstIterationBranch(iff.Cond, loopBlocks)
+			}
+			lastIf, _ := b.Instrs[len(b.Instrs)-1].(*ssa.If)
+			for si, sc := range b.Succs {
+				saved := flag
+				nd := len(decisions)
+				if lastIf != nil && len(b.Succs) == 2 && b.Succs[0] != b.Succs[1] {
+					decisions = append(decisions, Guard{Cond: lastIf.Cond, Sense: si == 0, If: lastIf})
+				}
+				if later >= 0 {
+					nf := 1
+					if si == later {
+						nf = 2
+					}
+					if flag != 0 {
+						nf = 3
+					}
+					flag = nf
+				}
 				switch {
 				case sc == header:
 					npaths++
@@ -861,7 +1464,17 @@ func (sh *shaper) builder(recv ssa.Value, at *ssa.Call) *Shape {
 						bad = "too many paths through the loop that writes the builder"
 						break
 					}
-					alts = append(alts, concat(append([]*Shape{}, cur...)...))
+					one := concat(append([]*Shape{}, cur...)...)
+					alts = append(alts, one)
+					decided = append(decided, iterAlt{one, append([]Guard{}, decisions...)})
+					switch flag {
+					case 1:
+						firstAlts = append(firstAlts, one)
+					case 2:
+						laterAlts = append(laterAlts, one)
+					default:
+						unflagged++
+					}
 				case !loopBlocks[sc]:
 					// leaving the loop: nothing may have been written in this (partial) iteration
 					if len(cur) > 0 {
@@ -872,6 +1485,8 @@ func (sh *shaper) builder(recv ssa.Value, at *ssa.Call) *Shape {
 				default:
 					dfs(sc)
 				}
+				flag = saved
+				decisions = decisions[:nd]
 			}
 			cur = cur[:n]
 			onPath[b] = false
@@ -880,7 +1495,16 @@ func (sh *shaper) builder(recv ssa.Value, at *ssa.Call) *Shape {
 		if bad != "" {
 			return unknown("%s", bad)
 		}
-		parts = append(parts, &Shape{K: "rep", Sub: []*Shape{alt(alts...)}})
+		if os.Getenv("VERIF_DEBUG") == "keyenc" {
+			fmt.Fprintf(os.Stderr, "builder %s: first=%v later=%v unflagged=%d\n", fn.Name(), firstAlts, laterAlts, unflagged)
+		}
+		if esc, usedPre := sh.byteEscapeLoop(header, loopBlocks, decided, parts); esc != nil {
+			parts = append(parts[:len(parts)-usedPre], esc)
+		} else if j := manualJoin(firstAlts, laterAlts, unflagged); j != nil {
+			parts = append(parts, j)
+		} else {
+			parts = append(parts, &Shape{K: "rep", Sub: []*Shape{alt(alts...)}})
+		}
 	}
 	parts = append(parts, post...)
 	return concat(parts...)
